@@ -131,6 +131,11 @@ func (sp *shapePlan) execute(font *Font, buffer *Buffer, features []Feature) {
  * Caching
  */
 
+const (
+	maxCachedPlanFaces    = 16
+	maxCachedPlansPerFace = 64
+)
+
 // creates (or returns) a cached shaping plan suitable for reuse, for a combination
 // of `face`, `userFeatures`, `props`, plus the variation-space coordinates `coords`.
 func (b *Buffer) newShapePlanCached(font *Font, props SegmentProperties,
@@ -151,6 +156,16 @@ func (b *Buffer) newShapePlanCached(font *Font, props SegmentProperties,
 	}
 	plan := newShapePlan(font, props, userFeatures, coords)
 
+	// the cache lives as long as the buffer: bound the number of faces it keeps alive,
+	// and the number of plans (searched linearly) of each face
+	if len(plans) >= maxCachedPlansPerFace {
+		plans = nil
+	}
+	if _, has := b.planCache[font.face]; !has && len(b.planCache) >= maxCachedPlanFaces {
+		for face := range b.planCache {
+			delete(b.planCache, face)
+		}
+	}
 	plans = append(plans, plan)
 	b.planCache[font.face] = plans
 
